@@ -94,7 +94,8 @@ def run_case(case, ctx):
              'probe': make_probe(seen)}
     a_prec = case['a_prec']
     use_ne16 = case['ne16'] and all(
-        (op['op'] != 'conv') or (op['k'] in (1, 3) and (not op.get('dw') or op['k'] == 3))
+        (op['op'] != 'conv') or ('kshape' not in op and op['k'] in (1, 3) and
+                                 (not op.get('dw') or op['k'] == 3))
         for op in prog['ops'])
     if use_ne16:
         a_prec = [8]
@@ -150,7 +151,7 @@ def run_case(case, ctx):
         inp = s['in_precision']
         cin_eff = sum(alive[op['src']])
         if op['op'] == 'conv':
-            kk = op['k'] * op['k']
+            kk = op['kshape'][0] * op['kshape'][1] if 'kshape' in op else op['k'] * op['k']
             w_per_ch = kk if op.get('dw') else cin_eff * kk
             # MACs are summed over every invocation of the layer (a re-used layer runs at each
             # call site's resolution); the parameters are counted once
